@@ -4,7 +4,7 @@
    reader's lookup gets a response from holds the key. A node does not consult its own store: it only
    holds its own copy if its lookup is led back to itself. *)
 From Coq Require Import List Arith Bool.
-From MLV Require Import model.NetModel proofs.NetProofs.
+From MLV Require Import model.NetModel model.Check13 proofs.NetProofs.
 Import ListNotations.
 
 (* a put reaches every responder of its lookup: each stores the key, and one is enough for Ok *)
@@ -47,6 +47,15 @@ Example C01_nonvacuous :
   snd (put nt 3 7) = true /\ get_finds nt2 2 7 = true /\ get_finds nt2 1 7 = false.
 Proof. vm_compute. auto. Qed.
 
+(* known finding F23, as a witness in the model: a get that joins an active find_node lookup for the same
+   target receives nothing, where the same get issued on its own finds the value (the model follows the
+   code here; the check classifies exactly these steps and reports every other failure) *)
+Example C01_F23_witness :
+  let nt := fst (put (join (join (join (join [] true []) true [0]) true [0]) true [1]) 1 4) in
+  get_finds nt 3 4 = true /\ MLV.model.Check13.model_flag nt (EGetJoin 3 4) = Some false.
+Proof. vm_compute. auto. Qed.
+
+Print Assumptions C01_F23_witness.
 Print Assumptions C01_put_stores_on_every_responder.
 Print Assumptions C01_put_keeps.
 Print Assumptions C01_get_finds_known_holder.
